@@ -137,6 +137,12 @@ Definition finished (s : st) : bool :=
   forallb (fun x => (fst x =? 0) && (match snd x with [] => true | _ => false end)) (prods s) &&
   forallb (fun x => (fst x =? 0) && (snd x =? 0)) (cons s).
 Definition consumed_by (j : nat) (s : st) : list val := map snd (filter (fun x => fst x =? j) (loaded s)).
+(* values already *returned* by Consume calls of consumer j: its loads, minus the one of a call still in progress *)
+Definition returned_by (j : nat) (s : st) : list val :=
+  match nth_error (cons s) j with
+  | Some (pc, _) => if (pc =? 0) || (pc =? 1) || (pc =? 2) then consumed_by j s else removelast (consumed_by j s)
+  | None => []
+  end.
 Definition stored_by (i : nat) (s : st) : list val := map snd (filter (fun x => fst x =? i) (hist s)).
 
 (* replay a schedule, recording the enabled set before every step; stops at the first step that is not enabled *)
